@@ -8,7 +8,7 @@ BINS = ["dsim", "worker"]
 RULE = ("dsim scenarios (real code, virtual clock, every Timer::delay request recorded) from six families that bring each time_until_* "
         "value to and past zero: offered deadlines (1-3 instances, periods 20 ms .. 1 s incl. 50 ms +-1 ns, source timestamps in the past), "
         "requested deadlines (incl. samples dropped by the time-based filter: the D36 exemplar), lifespans, writes blocked by missing "
-        "acknowledgements (max_blocking_time 0 .. 260 ms), lease expiry of idle participants (100 s), and the late-timer directive `jump` "
+        "acknowledgements (max_blocking_time 0 .. 260 ms; half of them with a source timestamp before or up to a day after the clock), lease expiry of idle participants (100 s), and the late-timer directive `jump` "
         "on all of them; a case is non-trivial when the worker requested at least one delay other than the poke period; distinct by op lines")
 ASSUMPTIONS = ["participant_announcement_interval is set to 1000 s in every scenario, so the announcement timer never comes below the poke period "
                "(its time_until function is clamped at zero in the code itself)",
@@ -30,6 +30,9 @@ CORPUS = [
     # blocked write
     world(True, "reliability=reliable history=keep_last:1 max_blocking=130000000", "reliability=reliable history=keep_all") +
     ["drop-if ACKNACK user", "write w 1 1", "timers", "now", "write w 1 2", "now", "timers", "write w 1 3", "now", "timers"],
+    # blocked writes whose source timestamp is far ahead of / behind the clock: the timeout still counts from the call
+    world(True, "reliability=reliable history=keep_last:1 max_blocking=130000000", "reliability=reliable history=keep_all") +
+    ["drop-if ACKNACK user", "write w 1 1", "timers", "now", "write w 1 2 ts=10000000000", "now", "timers", "now", "write w 1 3 ts=0", "now", "timers"],
     # lease expiry of idle participants
     [CONFIG, "participant P1", "participant P2", "timers", "advance 99900000000", "timers", "advance 300000000", "timers", "now"],
 ]
@@ -83,7 +86,9 @@ def gen_case(r):
         if c < 4:
             k = r.range(1, keys)
             if fam == "block":
-                l += ["now", f"write w {k} {r.below(100)}", "now"]
+                # the blocking interval counts from the call, whatever source timestamp the sample carries (seeded change C31_b)
+                ts = "" if r.chance(1, 2) else f" ts={r.choice([0, 1, 10 ** 10, 3 * 10 ** 9, 86400 * 10 ** 9])}"
+                l += ["now", f"write w {k} {r.below(100)}{ts}", "now"]
             else:
                 ts = ""
                 if r.chance(1, 4):
